@@ -66,7 +66,17 @@ func marshalHex(v interface{}, simple bool) string {
 }
 
 func emit14(t *tr.Writer, id int, c c14Case, what string, got, want interface{}) {
-	t.Emit(tr.Rec{"ev": "one", "case": id, "kind": "c14", "what": what, "got": got, "want": want, "input": c})
+	// shape of the observation: hex strings (bytes), value graphs, or decode outcomes {v, err}
+	shape := func(x interface{}) string {
+		switch x.(type) {
+		case string:
+			return "bytes"
+		case fmtx.Graph:
+			return "graph"
+		}
+		return "decoded"
+	}
+	t.Emit(tr.Rec{"ev": "one", "case": id, "kind": "c14", "what": what, "got": got, "want": want, "gshape": shape(got), "wshape": shape(want), "input": c})
 }
 
 // gated first use: type i's inner coder is parked right after publication while the outer value is coded
@@ -275,6 +285,18 @@ func c14Uses() []c14Use {
 			}},
 		{"ref-back-to-earlier-use", func(e *hio.Encoder) string { e.Encode([]interface{}{"hello"}); return hex.EncodeToString(e.Bytes()) },
 			func(d *hio.Decoder) interface{} { return decodeInto(d, []byte("a1{r1;}"), false, nil) }},
+		// a user that relies on the coder's defaults (reference mode) and whose data has back-references
+		{"defaults-with-refs", func(e *hio.Encoder) string { e.Encode(shared); return hex.EncodeToString(e.Bytes()) },
+			func(d *hio.Decoder) interface{} {
+				d.ResetBytes([]byte("a3{s5\"hello\"r1;c5\"Plain\"3{uaubuc}o0{1r1;0}}"))
+				var v interface{}
+				d.Decode(&v)
+				e := "none"
+				if d.Error != nil {
+					e = d.Error.Error()
+				}
+				return tr.Rec{"err": e, "v": fmtx.Abs(v)}
+			}},
 	}
 }
 
@@ -299,7 +321,7 @@ func c14Pool(t *tr.Writer, id int, c c14Case) {
 		if dir == "enc" {
 			want = last.enc(new(hio.Encoder))
 		} else {
-			want = last.dec(hio.NewDecoder(nil))
+			want = last.dec(new(hio.Decoder)) // what the pool hands out when it is empty
 		}
 		names := ""
 		for _, u := range c.Seq {
